@@ -169,11 +169,26 @@ def P : Params Msg SocketError (List Nat) Nat Nat TErr where
   conv := .socket
   transform := scriptT
 
+/-- payload text standing for "the documentation does not say" in the spec driver -/
+def unspecified : String := "\x00unspecified"
+
+/-- the stream specification over the *documented* parser: where `specParse` is silent the error
+item is marked and the spec driver prints nothing for it -/
+def PSpec : Params Msg SocketError (List Nat) Nat Nat TErr :=
+  { P with parse := fun m => match specParse deVec m with
+      | some r => r
+      | none => some (.error (.deserialise unspecified)) }
+
+def isUnspecified : Item → Bool
+  | .error (.socket (.deserialise p)) => p == unspecified
+  | _ => false
+
+def pollUnspecified : PollRes Item → Bool
+  | .ready (some i) => isUnspecified i
+  | _ => false
+
 /-- `process_buffered_events` sees parse failures as absent -/
-def PQuiet : Params Msg SocketError (List Nat) Nat Nat TErr :=
-  { P with parse := fun m => match P.parse m with
-      | some (.error _) => none
-      | r => r }
+def PQuiet : Params Msg SocketError (List Nat) Nat Nat TErr := quiet P
 
 /-! ### formats -/
 
@@ -275,7 +290,7 @@ def drainModel : Nat → St Msg Nat Nat TErr → List String → St Msg Nat Nat 
   | 0, s, acc => (s, acc)
   | fuel + 1, s, acc =>
     let (s', r) := pollNext P s
-    let acc := acc ++ ["out " ++ fmtPoll r]
+    let acc := acc ++ ["out" ++ toString acc.length ++ " " ++ fmtPoll r]
     match r with
     | .ready (some _) => drainModel fuel s' acc
     | _ => (s', acc)
@@ -313,7 +328,13 @@ def pureOp (toks : List String) : Option (List String) :=
         | .pong p => processPong p
         | .close f => processCloseFrame f
         | .frame f => processFrame f
-      ["parse " ++ fmtParsed (parse deVec (.ok m)), "helper " ++ fmtParsed direct]
+      let r := parse deVec (.ok m)
+      let disp : List String := match r with
+        | some (.error e) => match e.display with
+          | some d => ["display " ++ esc d]
+          | none => []
+        | _ => []
+      ["parse " ++ fmtParsed r] ++ disp ++ ["helper " ++ fmtParsed direct]
   | ["disc", k] => (wsErrorOf k).map fun e => ["disc " ++ fmtBool (isWebsocketDisconnected e)]
   | ["de_u64_ms", j] => (unesc j).map fun j => ["de " ++ fmtOutcomeTime (deU64EpochMs (lexJson j))]
   | ["de_str_u64_ms", j] => (unesc j).map fun j => ["de " ++ fmtOutcomeTime (deStrU64EpochMs (lexJson j))]
@@ -395,7 +416,8 @@ def model : Drv MSt where
         let fresh : St Msg Nat Nat TErr := St.new ⟨msgsOf l.pushed, true⟩ l.t0 l.buffer0
         let n := fresh.buffer.length + fresh.stream.items.length * 8 + 1
         let items := itemsOf (polls P (n * 8) fresh)
-        (s, items.map (fun i => "col " ++ fmtItem i) ++ ["coln " ++ toString items.length])
+        (s, (items.zipIdx.map fun (i, k) => "col" ++ toString k ++ " " ++ fmtItem i) ++
+          ["coln " ++ toString items.length])
       | none => (s, ["bad-op"])
     | _ =>
       match pureOp toks with
@@ -412,39 +434,29 @@ structure SpecSt where
   /-- number of polls answered from the determined part of `specPolls` -/
   k : Nat
 
-def specDrain : Nat → SpecSt → List String → SpecSt × List String
-  | 0, s, acc => (s, acc)
-  | fuel + 1, s, acc =>
-    let r := specPollAt P s.st0 s.k
-    let s' := if s.k < (specPolls P s.st0).length then { s with k := s.k + 1 } else s
-    let acc := acc ++ ["out " ++ fmtPoll r]
+def specDrain : Nat → Nat → SpecSt → List String → SpecSt × List String
+  | 0, _, s, acc => (s, acc)
+  | fuel + 1, i, s, acc =>
+    let r := specPollAt PSpec s.st0 s.k
+    let s' := if s.k < (specPolls PSpec s.st0).length then { s with k := s.k + 1 } else s
+    let acc := if pollUnspecified r then acc else acc ++ ["out" ++ toString i ++ " " ++ fmtPoll r]
     match r with
-    | .ready (some _) => specDrain fuel s' acc
+    | .ready (some _) => specDrain fuel (i + 1) s' acc
     | _ => (s', acc)
 
 /-- the parser according to the decision table of the documentation; `none` = the spec is silent -/
 def specParseLine (m : Msg) : Option String :=
-  match disposition m with
-  | .housekeeping => some "parse none"
-  | .transport => match m with
-    | .error e => some ("parse err ws " ++ wsErrorKind e)
-    | _ => none
-  | .closed => match m with
-    | .ok (.close f) => some ("parse err term " ++ esc (closeFrameDebug f))
-    | _ => none
-  | .data => match m with
-    | .ok w => match payloadText w with
-      | some t => match parseVecU32 t with
-        | some v => some ("parse ok " ++ fmtVec v)
-        | none => some ("parse err deser " ++ esc t)
-      -- a payload that is not text: the documentation does not say how it is rendered
-      | none => none
-    | _ => none
+  (specParse deVec m).map fun r => "parse " ++ fmtParsed r
 
 def decimalOfJsonStr (j : Json) : Option (List Char) :=
   match j with
   | .str cs false => some cs
   | _ => none
+
+/-- empty, or containing a character that occurs nowhere in the documented grammar of
+`f64::from_str` (digits, sign, dot, exponent letter, the letters of inf / infinity / nan) -/
+def foreignToFloat (cs : List Char) : Bool :=
+  cs.isEmpty || cs.any fun c => !(isDigit c || "+-.eEinfatyINFATY".toList.contains c)
 
 /-- spec for the time helpers: decided only where the documentation decides it — a plain decimal
 numeral (resp. a decimal number that binary64 represents exactly) inside chrono's range -/
@@ -459,12 +471,18 @@ def specDe (op : String) (j : Json) : Option String :=
   | "de_str_u64_ms" =>
     match j with
     | .str cs false =>
-      if !cs.isEmpty && cs.all isDigit && specNumeral cs ≤ u64Max then inRange (specEpochMs (specNumeral cs))
-      else none
+      -- std: "an optional + sign followed by only digits; leading and trailing non-digit characters
+      -- (including whitespace) represent an error"
+      let ds := match cs with
+        | '+' :: r => r
+        | _ => cs
+      if !ds.isEmpty && ds.all isDigit && specNumeral ds ≤ u64Max then inRange (specEpochMs (specNumeral ds))
+      else some "de err {empty|digit|overflow}"
     | _ => some "de err json"
   | "de_str_f64_ms" =>
     match j with
     | .str cs false =>
+      if foreignToFloat cs then some "de err {fempty|finvalid}" else
       match parseNumber cs with
       | some q => if ieee.round q == .finite q && q < (2 : Rat) ^ 64 then inRange (specEpochMs q.floor.toNat) else none
       | none => none
@@ -472,6 +490,7 @@ def specDe (op : String) (j : Json) : Option String :=
   | "de_str_f64_s" =>
     match j with
     | .str cs false =>
+      if foreignToFloat cs then some "de err {fempty|finvalid}" else
       match parseNumber cs with
       | some q =>
         if ieee.round q == .finite q && q < (2 : Rat) ^ 64 then inRange (roundHalfEven (q * nanosPerSec)).toNat else none
@@ -505,19 +524,21 @@ def spec : Drv SpecSt where
       else (s, ["bad-op"])
     | ["poll"] =>
       if s.started then
-        let r := specPollAt P s.st0 s.k
-        let s' := if s.k < (specPolls P s.st0).length then { s with k := s.k + 1 } else s
-        (s', ["poll " ++ fmtPoll r])
+        let r := specPollAt PSpec s.st0 s.k
+        let s' := if s.k < (specPolls PSpec s.st0).length then { s with k := s.k + 1 } else s
+        (s', if pollUnspecified r then [] else ["poll " ++ fmtPoll r])
       else (s, ["bad-op"])
     | ["drain"] =>
       if s.started then
-        let (s', outs) := specDrain 10000 s []
+        let (s', outs) := specDrain 10000 0 s []
         (s', outs)
       else (s, ["bad-op"])
     | ["collect"] =>
       if s.started then
-        let items := s.st0.buffer ++ specOut P s.st0.transformer (messages s.st0.stream.items)
-        (s, items.map (fun i => "col " ++ fmtItem i) ++ ["coln " ++ toString items.length])
+        let items := s.st0.buffer ++ specOut PSpec s.st0.transformer (messages s.st0.stream.items)
+        (s, (items.zipIdx.filterMap fun (i, k) =>
+              if isUnspecified i then none else some ("col" ++ toString k ++ " " ++ fmtItem i)) ++
+            ["coln " ++ toString items.length])
       else (s, ["bad-op"])
     | "parse" :: "err" :: [k] =>
       match wsErrorOf k with
@@ -526,6 +547,34 @@ def spec : Drv SpecSt where
     | "parse" :: rest =>
       match parseMessage rest with
       | some m => (s, (specParseLine (.ok m)).toList)
+      | none => (s, ["bad-op"])
+    | ["disc", k] =>
+      match wsErrorOf k with
+      | some e => (s, ((specDisconnected e).map fun b => "disc " ++ fmtBool b).toList)
+      | none => (s, ["bad-op"])
+    | "extract" :: _ | "se" :: _ =>
+      -- the documented contract of `extract_next` / `se_element_to_vector` is complete: the spec is the function
+      match pureOp toks with
+      | some lines => (s, lines)
+      | none => (s, ["bad-op"])
+    | ["de_str_u64", j] =>
+      match unesc j with
+      | some j =>
+        match lexJson j with
+        | .str cs false =>
+          let ds := match cs with
+            | '+' :: r => r
+            | _ => cs
+          if !ds.isEmpty && ds.all isDigit && specNumeral ds ≤ u64Max then (s, ["v ok " ++ toString (specNumeral ds)])
+          else (s, ["v err {empty|digit|overflow}"])
+        | _ => (s, ["v err json"])
+      | none => (s, ["bad-op"])
+    | ["de_str_f64", j] =>
+      match unesc j with
+      | some j =>
+        match lexJson j with
+        | .str cs false => (s, if foreignToFloat cs then ["v err {fempty|finvalid}"] else [])
+        | _ => (s, ["v err json"])
       | none => (s, ["bad-op"])
     | [op, j] =>
       if op == "de_u64_ms" || op == "de_str_u64_ms" || op == "de_str_f64_ms" || op == "de_str_f64_s" then
